@@ -75,7 +75,11 @@ class Bang(Exception):
     pass
 
 
-EXC = {"Boom": Boom, "Bang": Bang, "ValueError": ValueError, "KeyError": KeyError}
+class Crit(BaseException):
+    """a failure that is a BaseException but not an Exception (Event.fail accepts any BaseException)"""
+
+
+EXC = {"Boom": Boom, "Bang": Bang, "ValueError": ValueError, "KeyError": KeyError, "Crit": Crit}
 
 
 def canon_exc(e):
@@ -135,7 +139,7 @@ def gen_script(rng, prof, flavour, idx, nscripts, nev, npids_guess):
         elif k == "succeed" and nev:
             ops.append(["succeed", rng.randrange(nev)])
         elif k == "fail" and nev:
-            ops.append(["fail", rng.randrange(nev), rng.choice(["Boom", "Bang", "ValueError"])])
+            ops.append(["fail", rng.randrange(nev), rng.choice(["Boom", "Bang", "ValueError", "Boom", "Crit"])])
         elif k == "spawn" and idx + 1 < nscripts:
             ops.append(["spawn", rng.randrange(idx + 1, nscripts)])
             nkids += 1
@@ -157,7 +161,7 @@ def gen_script(rng, prof, flavour, idx, nscripts, nev, npids_guess):
     end = None
     r = rng.random()
     if r < prof.get("p_raise", 0.1):
-        end = ["raise", rng.choice(["Boom", "Bang"])]
+        end = ["raise", rng.choice(["Boom", "Bang", "Boom", "Crit"])]
     elif r < 0.6:
         end = ["ret", f"r{idx}"]
     return {
@@ -204,8 +208,9 @@ class Runner:
     MAX_ESCAPES = 6
     STEP_CAP = 20000
 
-    def __init__(self, K, program, mon=None, envclass=None, env=None):
+    def __init__(self, K, program, mon=None, envclass=None, env=None, bare=False):
         self.K = K
+        self.bare = bare          # no probe callbacks at all: everything is observed from process bodies only
         self.prog = program
         Env = make_monenv(envclass or K.Environment)
         self.env = env if env is not None else Env(program.get("t0", 0))
@@ -240,6 +245,9 @@ class Runner:
         self.keep.append(ev)
 
     def _probe(self, ev, label, cls):
+        if self.bare:
+            return
+
         def cb(e, label=label, cls=cls):
             env = self.env
             self.pstep[label] = env.steps
@@ -325,7 +333,7 @@ class Runner:
         self.nuid += 1
         label = f"C{self.nuid}"
         self._name(c, label)
-        if c.callbacks is not None:
+        if c.callbacks is not None and not self.bare:
             self._probe(c, label, NORMAL)
         for l in ltree:
             self.cond_operands.add(l if isinstance(l, str) else l["label"])
@@ -442,7 +450,9 @@ class Runner:
                             self._end(pid, "raise", None)
                             raise Boom(f"int{pid}")
                         break
-                    except Exception as e:
+                    except GeneratorExit:
+                        raise
+                    except BaseException as e:
                         tape.append((env.now, "exc", pid, opi, label, canon_exc(e), imm))
                         if mon:
                             mon.resumed(("p", pid), label, ev, e, imm)
@@ -485,7 +495,7 @@ class Runner:
         try:
             v = env.run(until) if until is not None else env.run()
             return ("ret", v)
-        except Exception as e:
+        except (Exception, Crit) as e:
             return ("raise", e)
 
     def run_to_end(self):
@@ -546,8 +556,8 @@ def first_diff(a, b):
     return n if len(a) != len(b) else None
 
 
-def run_on(K, program, mon=None, envclass=None):
-    r = Runner(K, program, mon=mon, envclass=envclass)
+def run_on(K, program, mon=None, envclass=None, bare=False):
+    r = Runner(K, program, mon=mon, envclass=envclass, bare=bare)
     r.start()
     r.run_to_end()
     return r
@@ -1044,3 +1054,12 @@ def spec_violation(real_runner, spec_runner):
     return [("spec-divergence:" + diff_kind((i, a, b)),
              "the tape of the real kernel differs from the tape of the spec kernel (executable model of C01-C05)",
              {"index": i, "real": a, "spec": b, "context": [list(e) for e in real_runner.tape[max(0, i - 3):i]]})]
+
+
+def bare_spec_violation(program):
+    """the program without any probe callback (processes are events nobody has touched): real vs spec tape"""
+    RealK.load()
+    rr = run_on(RealK, program, bare=True)
+    sr = run_on(speckernel.K, program, bare=True)
+    v = spec_violation(rr, sr)
+    return [(m.replace("spec-divergence:", "spec-divergence[no-probes]:"), w, x) for m, w, x in v], len(rr.tape)
